@@ -253,6 +253,8 @@ type Tokenizer struct {
 	dialect    keywords.SQLDialect // SQL dialect for dialect-specific keyword recognition
 	logger     *slog.Logger        // Optional structured logger for verbose tracing
 	Comments   []models.Comment    // Comments captured during tokenization
+
+	skippedComment bool // set by readPunctuation when it consumed a comment instead of a token
 }
 
 // New creates a new Tokenizer with default configuration and keyword support.
@@ -471,6 +473,12 @@ func (t *Tokenizer) Tokenize(input []byte) ([]models.TokenWithSpan, error) {
 				tokenErr = err
 				return
 			}
+			if t.skippedComment {
+				// A comment was consumed instead of a token; the next token starts
+				// after it (and after any whitespace or further comments).
+				t.skippedComment = false
+				continue
+			}
 
 			tw := models.TokenWithSpan{
 				Token: token,
@@ -610,6 +618,12 @@ func (t *Tokenizer) TokenizeContext(ctx context.Context, input []byte) ([]models
 				// nextToken returns structured errors, pass through directly
 				tokenErr = err
 				return
+			}
+			if t.skippedComment {
+				// A comment was consumed instead of a token; the next token starts
+				// after it (and after any whitespace or further comments).
+				t.skippedComment = false
+				continue
 			}
 
 			tw := models.TokenWithSpan{
@@ -1299,8 +1313,10 @@ func (t *Tokenizer) readPunctuation() (models.Token, error) {
 					Inline: t.hasCodeBeforeOnLine(commentStartIdx),
 				})
 				// Return the next token (skip the comment)
-				t.skipWhitespace()
-				return t.nextToken()
+				// The comment is not a token: tell the tokenize loop to start over
+				// at whatever follows it.
+				t.skippedComment = true
+				return models.Token{}, nil
 			}
 		}
 		return models.Token{Type: models.TokenTypeMinus, Value: "-"}, nil
@@ -1340,8 +1356,10 @@ func (t *Tokenizer) readPunctuation() (models.Token, error) {
 					Inline: t.hasCodeBeforeOnLine(commentStartIdx),
 				})
 				// Return the next token (skip the comment)
-				t.skipWhitespace()
-				return t.nextToken()
+				// The comment is not a token: tell the tokenize loop to start over
+				// at whatever follows it.
+				t.skippedComment = true
+				return models.Token{}, nil
 			}
 		}
 		return models.Token{Type: models.TokenTypeDiv, Value: "/"}, nil
